@@ -661,6 +661,15 @@ func init() {
 			bfs(&r2, p)
 		}
 	}, replay: replayBFS})
+	// and for C12: a raw write through a named handle reaches the appenders of the logger CONFIGURED under that name
+	// (and nobody else) in every reachable lifecycle state - whatever the handle was bound to in earlier configurations
+	parts = append(parts, partDef{prop: "C12", name: "c12/handle-through-the-lifecycle", tiers: "qt", run: func(r *runCtx, p *Part) {
+		if r.shard%4 == 1 || r.nshards < 2 {
+			r2 := *r
+			r2.shard, r2.nshards = r.shard/4, (r.nshards+3)/4
+			bfs(&r2, p)
+		}
+	}, replay: replayBFS})
 }
 
 func init() {
